@@ -268,6 +268,7 @@ def _oracle_dohist(call):
 
 
 def install():
+    probe.enable_recall("C05.recall", every=5)
     probe.instrument("esutil.stat.util:histogram", [_oracle_histogram], also=["esutil.stat"])
     probe.instrument("esutil.stat.util:Binner.dohist", [_oracle_dohist])
 
